@@ -66,9 +66,15 @@ func TestC01Hub(t *testing.T) { runHubProperty(t, "C01", genC01Hub, judgeC01Hub)
 // Ops[1].K = who dials (hub0|hub1). Hub 0 is under test, hub 1 presents "shipid-N1".
 func genC09Hub(t *rapid.T) Scenario {
 	return Scenario{N: 2, ZeroHigher: rapid.Bool().Draw(t, "zeroHigher"), Ops: []HubOp{
-		{K: rapid.SampledFrom([]string{"unknown", "correct", "wrong", "wrong"}).Draw(t, "stored")},
+		{K: rapid.SampledFrom([]string{"unknown", "unknown", "unknown", "correct", "wrong", "wrong"}).Draw(t, "stored")},
 		{K: rapid.SampledFrom([]string{"hub0-dials", "hub1-dials"}).Draw(t, "direction")},
 		{K: "wait", WaitMs: rapid.SampledFrom([]int{0, 50, 400}).Draw(t, "wait")},
+		// Ops[3]: the application of hub 0 needs WaitMs for every pairing notification; K = "reconnect":
+		// the connection is cut once it has completed, so that the next one is set up while the
+		// notifications of the first are still being delivered
+		{K: rapid.SampledFrom([]string{"once", "reconnect", "reconnect"}).Draw(t, "again"), WaitMs: rapid.SampledFrom([]int{0, 300, 300}).Draw(t, "slowApp")},
+		// Ops[4]: the spelling with which the application addresses the service record when it restores the SHIP ID
+		{K: "spell", Spell: rapid.SampledFrom([]int{0, 0, 1, 2, 3}).Draw(t, "idSpell")},
 	}}
 }
 
@@ -90,8 +96,14 @@ func judgeC09Hub(sc Scenario) (key, msg string, nontrivial bool) {
 	}
 	h, p := f.Nodes[0], f.Nodes[1]
 	stored := map[string]string{"unknown": "", "correct": "shipid-N1", "wrong": "shipid-N1-other"}[sc.Ops[0].K]
+	again, slowApp, idSpell := false, 0, 0
+	if len(sc.Ops) >= 5 {
+		again, slowApp, idSpell = sc.Ops[3].K == "reconnect", sc.Ops[3].WaitMs, sc.Ops[4].Spell
+	}
+	h.App.SlowPairing.Store(int64(slowApp))
 	// the application restores the persisted SHIP ID before pairing, as the API documents
-	h.Hub.ServiceForSKI(p.SKI).SetShipID(stored)
+	// (it may write the SKI the way it is printed on the device)
+	h.Hub.ServiceForSKI(SpellSKI(p.SKI, idSpell)).SetShipID(stored)
 	h.Hub.RegisterRemoteSKI(p.SKI)
 	p.Hub.RegisterRemoteSKI(h.SKI)
 	time.Sleep(time.Duration(sc.Ops[2].WaitMs) * time.Millisecond)
@@ -101,28 +113,48 @@ func judgeC09Hub(sc Scenario) (key, msg string, nontrivial bool) {
 		f.SetSees(1, 0, true)
 	}
 	done := WaitFor(8*time.Second, func() bool { return f.Completed(0, 1) && f.Completed(1, 0) })
-	f.Quiet(settleQuiet, 8*time.Second)
+	if done && again && sc.Ops[0].K != "wrong" {
+		// lose the connection; both hubs see each other now, one of them redials
+		f.SetSees(0, 1, true)
+		f.SetSees(1, 0, true)
+		time.Sleep(150 * time.Millisecond)
+		f.Proxies[[2]int{0, 1}].Cut()
+		f.Proxies[[2]int{1, 0}].Cut()
+		time.Sleep(300 * time.Millisecond)
+		done = WaitFor(10*time.Second, func() bool { return f.Completed(0, 1) && f.Completed(1, 0) })
+	}
+	f.Quiet(settleQuiet+time.Duration(slowApp)*time.Millisecond, 12*time.Second)
 	evs := h.App.Events()
 	setups, reports := 0, []string{}
 	firstSetup, firstReport := int64(-1), int64(-1)
+	var setupSeq, reportSeq []int64
 	for _, e := range evs {
 		if e.Ski != p.SKI {
 			continue
 		}
 		if e.Kind == "setup" {
 			setups++
+			setupSeq = append(setupSeq, e.Seq)
 			if firstSetup < 0 {
 				firstSetup = e.Seq
 			}
 		}
 		if e.Kind == "shipid" {
 			reports = append(reports, e.Data)
+			reportSeq = append(reportSeq, e.Seq)
 			if firstReport < 0 {
 				firstReport = e.Seq
 			}
 		}
 	}
-	what := fmt.Sprintf("stored SHIP ID %q, peer presents %q, %s%s", stored, "shipid-N1", sc.Ops[1].K, f.Describe(10))
+	// with an unknown SHIP ID every connection reports the ID before it sets the device up
+	pairwise := true
+	for i := range setupSeq {
+		if i >= len(reportSeq) || reportSeq[i] > setupSeq[i] {
+			pairwise = false
+		}
+	}
+	what := fmt.Sprintf("stored SHIP ID %q (restored through the spelling %q), peer presents %q, %s, reconnect %v, slow application %d ms%s", stored, SpellSKI(p.SKI, idSpell), "shipid-N1", sc.Ops[1].K, again, slowApp, f.Describe(10))
 	switch sc.Ops[0].K {
 	case "wrong":
 		if setups > 0 || f.Completed(0, 1) {
@@ -145,7 +177,7 @@ func judgeC09Hub(sc Scenario) (key, msg string, nontrivial bool) {
 		if !f.Completed(0, 1) {
 			return "C09/hub-not-completed", "no completed connection: " + what, true
 		}
-		if len(reports) != setups || setups == 0 || reports[0] != "shipid-N1" || firstReport > firstSetup {
+		if len(reports) != setups || setups == 0 || reports[0] != "shipid-N1" || firstReport > firstSetup || !pairwise {
 			return "C09/hub-report", fmt.Sprintf("%d SHIP ID reports %v for %d device setups (first report #%d, first setup #%d): %s", len(reports), reports, setups, firstReport, firstSetup, what), true
 		}
 	}
